@@ -81,6 +81,21 @@ Theorem C17_first_matching_rule : forall tr u extra, supported_tr tr u = true ->
 Proof. exact first_matching_rule. Qed.
 Print Assumptions C17_first_matching_rule.
 
+
+(* expand on ellipsis-free templates (identifiers, non-vector data, proper lists nested to
+   any depth): with fuel twice the size of the template it returns the specification's
+   instantiation and leaves the cursors untouched, provided every identifier does (the
+   leaf hypothesis; it holds for identifiers that are not pattern variables and for
+   variables bound outside any ellipsis: leaf_not_variable, leaf_plain_variable) *)
+Theorem C17_expand_plain : forall ell pat bs se,
+  (forall x, is_symbol x = true -> s_is_ell ell x = false ->
+     exists c, sinst ell x se = SOk c /\ forall f its, expand ell pat bs (S f) x its = Ok (Some c, its)) ->
+  forall t, tmpl_ok (fun _ => false) ell false t = true ->
+  exists c, sinst ell t se = SOk c /\
+  forall f its, (2 * cell_size t <= f)%nat -> expand ell pat bs f t its = Ok (Some c, its).
+Proof. exact expand_plain. Qed.
+Print Assumptions C17_expand_plain.
+
 (* ------------------------------------------------------------------ refuted *)
 (* [refuted d u] := supported d u = false /\ ~ sound_on d u.  One concrete witness per
    recorded class outside the fragment; each is replayed on the implementation by the check
